@@ -17,7 +17,7 @@ from .c08 import prog_sig
 
 PROP = 'C09'
 LEVEL = 'exploration'
-N = {'quick': 30000, 'thorough': 1000000}
+N = {'quick': 22000, 'thorough': 1000000}
 RULE = ('seeded two-file worlds: data file from the stub encoder (metadata-less segments, padding, 100+ segments, '
         'both byte orders) or from TdmsWriter; index from the stub encoder or from TdmsWriter(index_file=True); '
         'storage = SimFS paths (index discovered through the os.path.isfile seam) or real paths; 25% of stub worlds '
